@@ -138,7 +138,14 @@ def observe(case):
         if case.get('chunk_k'):
             out['chunk'] = _create_index_chunked(path, case['chunk_k'])
         try:
-            out['contigs'] = [bytes(fa[k].raw()).hex() for k in keys]
+            # every contig is fetched and KEPT before any is looked at, in file order and in reverse order: a
+            # returned sequence must not change when another contig is fetched afterwards
+            kept = [fa[k] for k in keys]
+            kept_rev = [fa[k] for k in reversed(keys)][::-1]
+            first = [bytes(x.raw()).hex() for x in kept]
+            second = [bytes(x.raw()).hex() for x in kept_rev]
+            again = [bytes(fa[k].raw()).hex() for k in keys]
+            out['contigs'] = [a if a == b == c else 'ff' for a, b, c in zip(first, second, again)]
         except Exception as e:
             out['contigs'] = 'error:' + type(e).__name__
         iv = case['intervals']
